@@ -52,6 +52,11 @@ for d in sorted(glob.glob('seeded/*/')):
             res = 'MISSED: ' + lines[0][:60]
         else:
             res = 'no verdict recorded'
+    hp = d + 'history.txt'
+    if os.path.exists(hp) and res:
+        hist = [h for h in open(hp).read().split() if h]
+        if hist:
+            res += ' (earlier runs: ' + ', '.join(hist) + '; the check was strengthened, see 0.5)'
     def cell(x):
         return str(x).replace('|', '/').replace('\n', ' ')[:260]
     out.append('| %s | %s | %s | %s |' % (sid, cell(meta.get('summary', '')), cell(meta.get('needs', '')), res))
